@@ -89,6 +89,33 @@ def prune_guard(rep, rule, f, site):
               construct='trailing', node=f)
 
 
+def subscribed_membership(rep, mod, rule):
+    from . import sem
+    sd = find_def(mod, 'BaseAdapterRegistry.subscribed')
+    probs = []
+    hit = 0
+    for ps in sem.normal(sem.summaries(sd)):
+        ret = sem.nt(ps.ret)
+        memb = [(c, t) for c, t, p in ps.order if c.startswith('subscriber in ')]
+        leafok = any("self._find_leaf(self._subscribers, required, provided, '')" in c
+                     for c, t in memb)
+        if ret == 'subscriber':
+            hit += 1
+            if not (memb and memb[-1][1] and leafok):
+                probs.append('returns the subscriber without the membership test')
+        elif ret == 'None':
+            if memb and memb[-1][1]:
+                probs.append('member but returns None')
+        else:
+            probs.append('returns `%s`' % ret[:60])
+    rep.check(rule, 'BaseAdapterRegistry.subscribed', not probs and hit >= 1,
+              'returns the subscriber iff it is a member (`in`) of the leaf found '
+              'by _find_leaf(self._subscribers, required, provided, \'\')'
+              if not probs else {'problems': sorted(set(probs))}, construct='membership',
+              node=sd)
+
+
+
 def run(rep):
     repo = rep.repo
     mod = repo.module('adapter.py')
@@ -119,6 +146,11 @@ def run(rep):
              'new self._v_lookup and re-binds every delegated entry point to it, so the '
              'rebuilt registry answers from the caches that changed() reaches (shared '
              'with C05 INV-2)', floor=2)
+    rep.rule('R09.10', 'what the bookkeeping lists is what lookups can find: the extendor '
+             'index drops exactly `provided` (by equality) from each of its ancestors\' '
+             'lists when its last registration goes - never an ancestor that still has '
+             'registrations - and __init__ (which rebuild() re-runs) creates a fresh '
+             'lookup object before the first changed() (C04 R04.3, C05 INV-3)', floor=4)
     rep.decline('that replaying allRegistrations()/allSubscriptions() or '
                 'rebuild() yields an equivalent registry for every history')
 
@@ -137,28 +169,7 @@ def run(rep):
     mutators.no_reentry(rep, 'R09.8', mod)
     from .C05 import delegation_spec
     delegation_spec(rep, mod, 'R09.9')
-    sd = find_def(mod, 'BaseAdapterRegistry.subscribed')
-    probs = []
-    hit = 0
-    for ps in sem.normal(sem.summaries(sd)):
-        ret = sem.nt(ps.ret)
-        memb = [(c, t) for c, t, p in ps.order if c.startswith('subscriber in ')]
-        leafok = any("self._find_leaf(self._subscribers, required, provided, '')" in c
-                     for c, t in memb)
-        if ret == 'subscriber':
-            hit += 1
-            if not (memb and memb[-1][1] and leafok):
-                probs.append('returns the subscriber without the membership test')
-        elif ret == 'None':
-            if memb and memb[-1][1]:
-                probs.append('member but returns None')
-        else:
-            probs.append('returns `%s`' % ret[:60])
-    rep.check('R09.1', 'BaseAdapterRegistry.subscribed', not probs and hit >= 1,
-              'returns the subscriber iff it is a member (`in`) of the leaf found '
-              'by _find_leaf(self._subscribers, required, provided, \'\')'
-              if not probs else {'problems': sorted(set(probs))}, construct='membership',
-              node=sd)
+    subscribed_membership(rep, mod, 'R09.1')
 
     # ---- R09.2 --------------------------------------------------------------
     for fn, storage in (('register', '_adapters'), ('unregister', '_adapters'),
@@ -494,3 +505,7 @@ def run(rep):
     # ---- R09.7 --------------------------------------------------------------
     from .C05 import inv1
     inv1(rep, mod, table, rule='R09.7')
+    # ---- R09.10 -------------------------------------------------------------
+    shared.extendor_index(rep, 'R09.10', mod)
+    from .C05 import inv3
+    inv3(rep, mod, table, rule='R09.10')
